@@ -671,3 +671,73 @@ for _key, _src in (("CP2KEngine._extract_frame", (CP2K_PY, "CP2KEngine._extract_
                                           ghost_init=lambda c: {"written": c.st.ghost["written"]})},
         overrides=_XF_OVR,
     ))
+
+
+# ------------------------------------------------------------------ the same RESULT contract derived for the ASE in-process loop
+class AseHeapDriver(HeapDriver):
+    def pyvc_method(self, name, args, kwargs, st, ex, node):
+        if name == "calculate_order":
+            o = fresh("order", REAL)
+            g = st.ghost
+            st.ghost = dict(g, TRAJ=z3.Store(g["TRAJ"], _iv(st.env["step_nr"]), o))
+            yield st, OrderVec(o)
+            return
+        yield from super().pyvc_method(name, args, kwargs, st, ex, node)
+
+
+def _asr_make(ex, st):
+    sub, maxlen = fresh("subcycles", INT), fresh("maxlen", INT)
+    st.assume(sub >= 1, maxlen >= 1)
+    rev = fresh("reverse", BOOL)
+    p = _mk_path(st, "path")
+    st.assume(_pplen(st, p) == 0, _fld(st, "Path.maxlen", p.term) == maxlen)
+    st.ghost = dict(st.ghost, TRAJ=fresh("TRAJ", z3.ArraySort(INT, REAL)), stopped=z3.BoolVal(False), last_success=z3.BoolVal(False), appended=z3.IntVal(0),
+                    ver=fresh("ver0", INT), written=z3.IntVal(0), WRITTEN=fresh("WRITTEN", z3.ArraySort(INT, INT)), nsteps=sub * maxlen)
+    return {"self": AseHeapDriver("step_nr", {"subcycles": sub, "calc": CalcObj()}), "path": p, "atoms": AtomsObj(), "traj": TrajObj(), "dyn": DynObj(),
+            "ekin": Sink(), "vpot": Sink(), "step_nr": 0, "system": SysObj(rev), "msg_file": Opaque("msg_file"), "traj_file": "traj.traj", "reverse": rev,
+            "left": fresh("left", REAL), "right": fresh("right", REAL), "status": Opaque("s"), "success": False}
+
+
+def _asr_inv(ctx):
+    g, p = ctx.st.ghost, ctx.v("path")
+    L, R = ctx.v("left"), ctx.v("right")
+    M = _fld(ctx.st, "Path.maxlen", p.term)
+    k = _iv(ctx.v("step_nr"))
+    sub = ctx.v("self").attrs["subcycles"]
+    return stop_inv(ctx) + [
+        ("one_frame_per_phase_point", z3.And(_pplen(ctx.st, p) == k, g["appended"] == k, k >= 0)),
+        ("no_frame_before_the_first_iteration", z3.Implies(ctx.it == 0, k == 0)),
+        ("room_left_while_running", z3.Implies(k > 0, k < M)),
+        ("maxlen_unchanged", M == _fld(ctx.old, "Path.maxlen", p.term)),
+        ("all_frames_so_far_inside", forall_range(0, k, lambda j: _inside(ctx.st, p, j, L, R))),
+        ("frames_carry_the_computed_orders", forall_range(0, k, lambda j: _op(ctx.st, p, j) == z3.Select(g["TRAJ"], j))),
+        ("path_well_formed", _wf_path(ctx.st, p)),
+        ("no_success_without_a_stop", z3.Not(g["last_success"])),
+        ("success_flag_initially_false", z3.Implies(k == 0, z3.Not(ctx.v("success") if z3.is_expr(ctx.v("success")) else z3.BoolVal(bool(ctx.v("success")))))),
+    ]
+
+
+def _asr_post(c):
+    g, p = c.st.ghost, c.v("path")
+    L, R = c.v("left"), c.v("right")
+    n, M = _pplen(c.st, p), _fld(c.st, "Path.maxlen", p.term)
+    sv = c.v("success")
+    sv = sv if z3.is_expr(sv) else z3.BoolVal(bool(sv))
+    last_out = z3.Or(_op(c.st, p, n - 1) < L, _op(c.st, p, n - 1) > R)
+    return [
+        ("all_frames_but_the_last_are_inside", forall_range(0, n - 1, lambda j: _inside(c.st, p, j, L, R))),
+        ("path_never_exceeds_maxlen", n <= M),
+        ("success_iff_the_last_frame_is_outside_and_the_path_is_not_full", z3.Implies(n >= 1, sv == z3.And(last_out, n != M))),
+        ("frame_k_carries_the_order_computed_for_frame_k", forall_range(0, n, lambda j: _op(c.st, p, j) == z3.Select(g["TRAJ"], j))),
+    ]
+
+
+reg(Contract(
+    "ASEEngine._propagate_from#stop_rule", src=(ASE_PY, "ASEEngine._propagate_from"), slice=_loop_over("i"),
+    cases=[Case("sym", _asr_make)],
+    ensures=[("propagate_result", _asr_post)],
+    canaries=[("never_succeeds", lambda c: z3.Not(c.v("success")) if z3.is_expr(c.v("success")) else z3.BoolVal(not c.v("success")))],
+    loops={"for:i": LoopSpec(_asr_inv, modifies=_sysf() + ["Path.pp", "Path.pp#len"], allocates=True,
+                             ghost_init=lambda c: dict(stop_ghost(c), TRAJ=c.st.ghost["TRAJ"], ver=c.st.ghost["ver"], written=c.st.ghost["written"], WRITTEN=c.st.ghost["WRITTEN"]))},
+    overrides={"EngineBase.add_to_path": _atp_summary()},
+))
